@@ -108,7 +108,14 @@ impl FeelNumber {
   }
   ///
   pub fn even(&self) -> bool {
-    dec_is_zero(&dec_remainder(&self.0, &DEC_TWO))
+    let remainder = dec_remainder(&self.0, &DEC_TWO);
+    if dec_is_finite(&remainder) {
+      dec_is_zero(&remainder)
+    } else {
+      // the remainder is not-a-number when the integer quotient needs more than 34 digits,
+      // such a (finite) number has a positive exponent and is a multiple of ten
+      dec_is_finite(&self.0)
+    }
   }
   ///
   pub fn exp(&self) -> Self {
